@@ -27,12 +27,13 @@ RECURSIVE SpClose(_, _, _)
 SpClose(D, M, K) ==
   IF K = {} THEN D
   ELSE LET k == CHOOSE x \in K : TRUE IN
-       SpClose([a \in M |-> [b \in M |-> RtMin(D[a][b], RtMin(SpInf, D[a][k] + D[k][b]))]], M, K \ {k})
+       \* (TLCEval: TLC would otherwise keep the new matrix as an unevaluated expression over the previous one)
+       SpClose(TLCEval([a \in M |-> TLCEval([b \in M |-> RtMin(D[a][b], RtMin(SpInf, D[a][k] + D[k][b]))])]), M, K \ {k})
 
 SpDist(z, lk) ==
   LET M == SpMembers(z)
       E == SpEdges(z, lk)
-  IN SpClose([a \in M |-> [b \in M |-> SpDirect(z, E, a, b)]], M, M)
+  IN SpClose(TLCEval([a \in M |-> TLCEval([b \in M |-> SpDirect(z, E, a, b)])]), M, M)
 
 \* the one-hop routes that start a minimal chain from u to t (u # t)
 SpHops(E, D, u, t) ==
